@@ -1,4 +1,5 @@
 import Pko.Lemmas.C10Drift
+import Pko.Lemmas.Watch
 /-! C10, teardown side: a teardown pass releases every object it may touch; once everything is
 released the pass reports done.  (Which objects teardown may touch, and in which order across
 phases, is C04 / C05; here: convergence.) -/
@@ -73,11 +74,11 @@ theorem teardown_object_releases (cfg : Cfg) (ow : Owner) (p : PObj) (w : World)
     Released cfg ow p (teardownPhaseObject cfg ow p w).1.store ∧
     Quiet (teardownPhaseObject cfg ow p w).1 ∧
     ∀ k', k' ≠ keyOf cfg ow p → (teardownPhaseObject cfg ow p w).1.store.get k' = w.store.get k' := by
-  simp only [teardownPhaseObject, hpf]
+  simp only [teardownPhaseObject, hpf, watch_store, watch_beforeWrite_store]
   cases hg : w.store.get (keyOf cfg ow p) with
   | none =>
     refine ⟨by simp, ?_, hq, fun _ _ => rfl⟩
-    intro o ho; rw [hg] at ho; cases ho
+    intro o ho; simp only [watch_store] at ho; rw [hg] at ho; cases ho
   | some cur =>
     simp only
     by_cases hc : isController cfg.st (ow.ref true) cur = true
@@ -90,7 +91,7 @@ theorem teardown_object_releases (cfg : Cfg) (ow : Owner) (p : PObj) (w : World)
       · intro o ho
         simp only [World.log] at ho
         rw [get_set_same] at ho; cases ho
-      · simp only [Quiet, World.log, beforeWrite_env]; exact hq
+      · simp only [Quiet, World.log, watch_beforeWrite_env, beforeWrite_env]; exact hq
       · intro k' hk'
         simp only [World.log]
         exact get_set_other w.store _ k' none hk'
@@ -119,14 +120,14 @@ theorem teardown_object_releases (cfg : Cfg) (ow : Owner) (p : PObj) (w : World)
               simp only [hst, refs] at hx ⊢
               rw [h2] at hx
               exact hx
-        · simp only [Quiet, World.log, beforeWrite_env]; exact hq
+        · simp only [Quiet, World.log, watch_beforeWrite_env, beforeWrite_env]; exact hq
         · intro k' hk'
           simp only [World.log]
           exact commit_get_other w.store _ k' cur _ hk'
       · have ho' : isOwner cfg.st (ow.ref true) cur = false := by simpa using ho
         simp only [ho', Bool.not_false, ↓reduceIte]
-        refine ⟨by simp, ?_, hq, fun _ _ => trivial⟩
-        intro o hgo; rw [hg] at hgo; cases hgo; exact hc'
+        refine ⟨by simp, ?_, hq, fun _ _ => rfl⟩
+        intro o hgo; simp only [watch_store] at hgo; rw [hg] at hgo; cases hgo; exact hc'
 
 /-- a teardown step on a released object reports done and keeps it released. -/
 theorem teardown_released_done (cfg : Cfg) (ow : Owner) (p : PObj) (w : World)
@@ -138,14 +139,14 @@ theorem teardown_released_done (cfg : Cfg) (ow : Owner) (p : PObj) (w : World)
   cases hp : preflightObj cfg ow "" false p with
   | error => exact absurd hp hpf
   | violation =>
-    simp only [teardownPhaseObject, hp]
+    simp only [teardownPhaseObject, hp, watch_store, watch_beforeWrite_store]
     exact ⟨trivial, hrel, hq, fun _ _ => trivial⟩
   | ok =>
     have hnf : NoForeignFinalizer cfg ow p w.store := by
       intro o ho hc; rw [hrel o ho] at hc; cases hc
     obtain ⟨_, h2, h3, h4⟩ := teardown_object_releases cfg ow p w hq hp hnf
     refine ⟨?_, h2, h3, h4⟩
-    simp only [teardownPhaseObject, hp]
+    simp only [teardownPhaseObject, hp, watch_store, watch_beforeWrite_store]
     cases hg : w.store.get (keyOf cfg ow p) with
     | none => rfl
     | some cur =>
